@@ -377,8 +377,8 @@ func normalise(b []byte) []byte {
 // ---------------------------------------------------------------------------
 
 var scopeSpell = map[string][]string{
-	"/secret":   {"/secret", "/secret/", "/SECRET", `"/secret"`, "/Secret/"},
-	"/internal": {"/internal", "/internal/", "/INTERNAL"},
+	"/secret":       {"/secret", "/secret/", "/SECRET", `"/secret"`, "/Secret/"},
+	"/internal":     {"/internal", "/internal/", "/INTERNAL"},
 	"/noindex/priv": {"/noindex/priv", "/noindex/priv/", "/NOINDEX/priv"},
 }
 
